@@ -12,6 +12,7 @@ from ..model import Repo
 from ..report import Report
 from ..tables import module_attr
 from ..util import AnalysisError, always_raises, call_name, chain, names_loaded, norm, parent_map, short, walk_body, walk_local
+from .c02 import node_calls
 from .c05 import call_time_rule
 
 
@@ -414,7 +415,114 @@ def pointer_value_rule(repo: Repo, rep: Report, rid: str) -> None:
     rep.floor(rid, "pointer constructions in the block packer", len(emits), 2)
 
 
+def unpack_defined_rule(repo: Repo, rep: Report, rid: str) -> None:
+    rep.rule(rid, "generated block reader: 'data' is defined whenever a getter reads it - the 'data = _struct(...).unpack(buf)' line is left out only for "
+                  "struct formats that consist of padding alone (the omission test of _generate_packed folded over 14 formats)")
+    from ..minieval import Evaluator, Refused
+
+    fi = repo.func("compiler.py", "_ReadSourceGenerator._generate_packed")
+    stmts = [st for st in fi.body if isinstance(st, ast.If) and any(
+        isinstance(a_, ast.Assign) and isinstance(a_.value, ast.Constant) and a_.value.value == "" for a_ in ast.walk(st))]
+    assigns = [st for st in fi.body if isinstance(st, ast.Assign) and isinstance(st.value, ast.IfExp) and any(
+        isinstance(c_, ast.Constant) and c_.value == "" for c_ in (st.value.body, st.value.orelse))]
+    site = (stmts + assigns)[:1]
+    if not site:
+        # the unpack line is emitted unconditionally: always defined
+        always = any(isinstance(x, ast.JoinedStr) and ".unpack(buf)" in "".join(str(v.value) for v in x.values if isinstance(v, ast.Constant)) for x in walk_body(fi.node.body))
+        rep.check(always, rid, f"{fi.key}:unpack-omission", "the unpack line is emitted for every block", "no unpack line found in _generate_packed", fi.loc())
+        return
+    st = site[0]
+    test = st.test if isinstance(st, ast.If) else st.value.test
+    names = [x.id for x in ast.walk(test) if isinstance(x, ast.Name) and x.id not in ("len", "set", "all", "any", "str")]
+    var = next((a_.targets[0].id for a_ in ast.walk(st) if isinstance(a_, ast.Assign) and isinstance(a_.targets[0], ast.Name)
+                and isinstance(a_.value, (ast.Constant, ast.IfExp)) ), None) if isinstance(st, ast.If) else st.targets[0].id
+    if not names or var is None:
+        raise AnalysisError("_generate_packed: omission test of the unpack line has no format variable")
+    fmtvar = names[0]
+    samples = {"x": True, "4x": True, "12x": True, "130x": True, "B": False, "Bx": False, "Hx": False, "xB": False, "Qx": False, "2Bx": False, "B3x": False,
+               "4xI": False, "I4x": False, "2x2H": False}
+    bad = None
+    try:
+        for fmt, pad_only in samples.items():
+            env = {fmtvar: fmt}
+            Evaluator(env).run([st], env)
+            omitted = env.get(var) == ""
+            if omitted and not pad_only:
+                bad = (fmt, "the unpack line is omitted although the format unpacks a value")
+                break
+    except Refused as e:
+        raise AnalysisError(f"_generate_packed: omission test of the unpack line is outside the evaluator's whitelist: {e}") from e
+    rep.check(bad is None, rid, f"{fi.key}:unpack-omission", f"omitted only for padding-only formats ({len(samples)} formats folded)",
+              f"for the block format '{bad[0] if bad else ''}' {bad[1] if bad else ''}: the getters of that block read data[i], which is then undefined "
+              "(NameError at parse time, e.g. struct {{ uint8 a; char b; }}), while the interpreted reader parses the structure", fi.loc(st))
+
+
+def bit_storage_type_rule(repo: Repo, rep: Report, rid: str) -> None:
+    rep.rule(rid, "generated bit-field read: the type handed to bit_reader.read is the field's own storage type (the field's type, '.type' for an "
+                  "enum / flag) - the type the generator's unit bookkeeping, the layout calculator and the interpreted reader compare; substituting "
+                  "another type there (e.g. uint8 for char) makes the run-time BitBuffer merge units the others keep apart")
+    fi = repo.func("compiler.py", "_ReadSourceGenerator._generate_bits")
+    # the read-type expression inside the template: bit_reader.read({X}, ...)
+    tpl = [x for x in walk_body(fi.node.body) if isinstance(x, ast.JoinedStr) and any(isinstance(v, ast.Constant) and "bit_reader.read(" in str(v.value) for v in x.values)]
+    if len(tpl) != 1:
+        raise AnalysisError("_generate_bits: template with bit_reader.read( not found")
+    vals = tpl[0].values
+    idx = next(i for i, v in enumerate(vals) if isinstance(v, ast.Constant) and "bit_reader.read(" in str(v.value))
+    hole = vals[idx + 1].value if idx + 1 < len(vals) and isinstance(vals[idx + 1], ast.FormattedValue) else None
+    if not isinstance(hole, ast.Name):
+        raise AnalysisError("_generate_bits: the type argument of bit_reader.read is not a single hole")
+    # what does the local in that hole denote, and what does '_t' denote
+    tvar_assign = [v for i, v in enumerate(vals) if isinstance(v, ast.FormattedValue) and i > 0 and isinstance(vals[i - 1], ast.Constant) and str(vals[i - 1].value).rstrip().endswith("_t =")]
+    lookup = tvar_assign[0].value.id if tvar_assign and isinstance(tvar_assign[0].value, ast.Name) else None
+    defs = {}
+    for st in walk_body(fi.node.body):
+        if isinstance(st, (ast.Assign, ast.AugAssign)):
+            t = st.targets[0] if isinstance(st, ast.Assign) else st.target
+            if isinstance(t, ast.Name):
+                defs.setdefault(t.id, []).append(st)
+    bad = None
+    for name in {hole.id, lookup} - {None}:
+        for st in defs.get(name, []):
+            v = st.value
+            ok = (isinstance(v, ast.Call) and call_name(v) == "_map_field") or (isinstance(v, ast.Constant) and v.value in ("_t", ".type")) \
+                or (isinstance(st, ast.AugAssign) and isinstance(v, ast.Constant) and v.value == ".type")
+            if not ok:
+                bad = (name, st)
+    rep.check(bad is None, rid, f"{fi.key}:storage-type", "bit_reader.read receives the field's own (enum-unwrapped) type",
+              f"'{short(bad[1], 60) if bad else ''}' makes the generated code read the bit-field through another type than the field's storage type: the "
+              "run-time BitBuffer then continues a unit where the layout calculator and the interpreted reader open a new one (char a:4; uint8 b:4; "
+              "parses b from the wrong byte)", fi.loc(bad[1]) if bad else fi.loc())
+
+
+def backward_offset_rule(repo: Repo, rep: Report, rid: str) -> None:
+    rep.rule(rid, "generated block reader and explicit offsets: a field whose recorded offset lies before the position the running block has reached "
+                  "closes the block (the block packer only knows forward gaps, which it pads), so the next block seeks to it as the interpreted reader does")
+    fi = repo.func("compiler.py", "_ReadSourceGenerator._generate_fields")
+    info = repo.func("compiler.py", "_generate_struct_info")
+    # does the block packer handle a negative drift itself?
+    handles_negative = False
+    for c in walk_body(info.node.body):
+        if isinstance(c, ast.Compare) and any("offset" in norm(x) for x in [c.left, *c.comparators]) and any(isinstance(o, (ast.Lt, ast.NotEq, ast.LtE)) for o in c.ops):
+            handles_negative = True
+    g = CFG(fi.node)
+    appends = [n for n in g.nodes if n.kind == "stmt" and node_calls(n, "append", "current_block")]
+    if len(appends) != 1:
+        raise AnalysisError("_generate_fields: current_block.append site not found")
+    guards = [n for n in g.nodes if n.kind == "if" and any(isinstance(c, ast.Compare) and "field.offset" in norm(c) and "current_offset" in norm(c)
+                                                            and any(isinstance(o, (ast.Lt, ast.Gt, ast.NotEq)) for o in c.ops) for c in ast.walk(n.ast.test))
+              and "current_block" in norm(n.ast.test) and "not current_block" not in norm(n.ast.test)
+              and any(isinstance(y, ast.YieldFrom) and call_name(y.value) == "flush" for s_ in n.ast.body for y in ast.walk(s_) if isinstance(y.value, ast.Call))]
+    ok = handles_negative or any(g.must_pass(g.entry.id, appends[0].id, {x.id}) or g.dominates(x.id, appends[0].id) for x in guards)
+    rep.check(ok, rid, f"{fi.key}:backward-offset", "a field placed before the block's current position starts a new block",
+              "a field with an explicit offset smaller than the position the running block has reached is appended to that block: the block packer "
+              "ignores the negative gap and reads the fields back to back (wrong values or EOFError), while the interpreted reader seeks back "
+              "(Field('a', uint32, offset=4), Field('b', uint16, offset=0))", fi.loc(appends[0].ast))
+
+
 def run(repo: Repo, rep: Report, tier: str) -> None:
+    unpack_defined_rule(repo, rep, "C03.R16")
+    bit_storage_type_rule(repo, rep, "C03.R17")
+    backward_offset_rule(repo, rep, "C03.R18")
     block_alignment_rule(repo, rep, "C03.R12")
     discriminator_rule(repo, rep, "C03.R13")
     pointer_value_rule(repo, rep, "C03.R14")
